@@ -66,7 +66,8 @@ Definition fc_threshold (st : store) (h : header) : bool :=
       end
   | None => false
   end.
-Definition fc_dup (h : header) : bool := negb (length (dedup (h_bks h)) =? length (h_bks h))%nat.
+Definition fc_dup (h : header) : bool :=
+  negb (length (dedup (map bk_id (h_bks h))) =? length (h_bks h))%nat.
 Definition in_finding_class (st : store) (h : header) : bool :=
   fc_stale st h || fc_threshold st h || fc_dup h.
 
@@ -138,7 +139,7 @@ Qed.
 
 (** one run of the inner loop: a hit masks exactly one previously unmasked position whose key
     verifies; all other mask entries are unchanged *)
-Lemma mark_first_hit ok b keys mask mask' :
+Lemma mark_first_hit {A} (ok : A -> bool) b (keys : list A) mask mask' :
   mark_first ok b keys mask = MarkHit mask' ->
   exists j k, nth_error keys j = Some k /\ ok k = true /\ nth_error mask j = Some false /\
     nth_error mask' j = Some true /\
@@ -165,7 +166,7 @@ Lemma vms_loop_ok msg b keys : forall m mask sigs,
   vms_loop msg b keys mask sigs m = VmsOk ->
   exists jks : list (nat * key),
     length jks = m /\ NoDup (map fst jks) /\
-    (forall j k, In (j, k) jks -> nth_error keys j = Some k /\ nth_error mask j = Some false) /\
+    (forall j k, In (j, k) jks -> nth_error keys j = Some (BkKey k) /\ nth_error mask j = Some false) /\
     Forall2 (fun jk s => s = SBy (snd jk) msg) jks (firstn m sigs) /\ (m <= length sigs)%nat.
 Proof.
   induction m as [|m IH]; intros mask sigs H.
@@ -175,7 +176,8 @@ Proof.
     cbn [vms_loop] in H.
     destruct (sig_decodes s) eqn:Es; cbv beta iota delta [negb] in H; [|discriminate H].
     destruct (mark_first _ b keys mask) as [mask'| |] eqn:E; try discriminate.
-    apply mark_first_hit in E. destruct E as (j & k & Hk & Hok & Hm & Hm' & Hoth).
+    apply mark_first_hit in E. destruct E as (j & bk & Hk & Hok & Hm & Hm' & Hoth).
+    destruct bk as [k|fid]; [|discriminate Hok]. cbn [bk_verifies] in Hok.
     destruct (IH _ _ H) as (jks & Hl & Hnd & Hin & Hf & Hlen).
     exists ((j, k) :: jks); simpl.
     split; [lia|]. split; [|split; [|split; [|lia]]].
@@ -191,7 +193,7 @@ Lemma verify_multi_ok msg keys m sigs :
   verify_multi msg keys m sigs = VmsOk ->
   exists jks : list (nat * key),
     length jks = Z.to_nat m /\ NoDup (map fst jks) /\
-    (forall j k, In (j, k) jks -> nth_error keys j = Some k) /\
+    (forall j k, In (j, k) jks -> nth_error keys j = Some (BkKey k)) /\
     Forall2 (fun jk s => s = SBy (snd jk) msg) jks (firstn (Z.to_nat m) sigs).
 Proof.
   unfold verify_multi, vms_enough_lhs, vms_enough_rhs, vms_inner_bound, vms_mask_len, vms_outer_bound.
@@ -201,18 +203,18 @@ Proof.
 Qed.
 
 (** with a duplicate-free key list the matched keys are distinct *)
-Lemma matched_keys_NoDup (keys : list key) (jks : list (nat * key)) :
-  NoDup keys -> NoDup (map fst jks) ->
-  (forall j k, In (j, k) jks -> nth_error keys j = Some k) ->
+Lemma matched_keys_NoDup (keys : list bkey) (jks : list (nat * key)) :
+  NoDup (map bk_id keys) -> NoDup (map fst jks) ->
+  (forall j k, In (j, k) jks -> nth_error keys j = Some (BkKey k)) ->
   NoDup (map snd jks).
 Proof.
   intros Hk; induction jks as [|[j k] r IH]; simpl; intros Hnd Hin; [constructor|].
   inversion Hnd; subst. constructor.
   - intro Hi. apply in_map_iff in Hi. destruct Hi as [[j' k'] [Hs Hi]]. simpl in Hs; subst k'.
-    assert (nth_error keys j' = Some k) by (apply Hin; auto).
-    assert (nth_error keys j = Some k) by (apply Hin; auto).
+    assert (Ha : nth_error (map bk_id keys) j' = Some k) by (rewrite nth_error_map, (Hin j' k); auto).
+    assert (Hb : nth_error (map bk_id keys) j = Some k) by (rewrite nth_error_map, (Hin j k); auto).
     assert (j = j').
-    { apply (proj1 (NoDup_nth_error keys) Hk); [apply nth_error_Some; congruence|congruence]. }
+    { apply (proj1 (NoDup_nth_error (map bk_id keys)) Hk); [apply nth_error_Some; congruence|congruence]. }
     subst j'. apply H1. apply in_map_iff. exists (j, k); auto.
   - apply IH; auto.
 Qed.
@@ -232,8 +234,8 @@ Lemma check_quorum_ok peers c h r :
   check_quorum peers c h = ROk r ->
   let m := hs_vbft_m (Z.of_nat (length peers)) in
   (m <= Z.of_nat (length (h_bks h)))%Z /\
-  (forall k, In k (h_bks h) -> In k peers) /\
-  ((Z.of_N c + 1) mod 4294967296 <= Z.of_nat (length (dedup (h_bks h))) mod 4294967296)%Z /\
+  (forall b, In b (h_bks h) -> In (bk_id b) peers) /\
+  ((Z.of_N c + 1) mod 4294967296 <= Z.of_nat (length (dedup (map bk_id (h_bks h)))) mod 4294967296)%Z /\
   verify_multi (h_hash h) (h_bks h) m (h_sigs h) = VmsOk.
 Proof.
   unfold check_quorum, hs_vbft_listed_lhs, hs_vbft_listed_rhs, hs_vbft_distinct_lhs,
@@ -243,7 +245,7 @@ Proof.
   destruct (_ mod _ <? _)%Z eqn:E3; [discriminate|].
   destruct (verify_multi _ _ _ _) eqn:E4; try discriminate. intros _.
   split; [lia|]. split; [|split; [|reflexivity]].
-  - intros k Hk. rewrite forallb_forall in E2. apply memk_In. apply E2; auto.
+  - intros b Hb. rewrite forallb_forall in E2. apply memk_In. apply (E2 b); auto.
   - apply Z.ltb_ge in E3. exact E3.
 Qed.
 
@@ -278,7 +280,7 @@ Qed.
 Definition slots_signed (h : header) (m : nat) : Prop :=
   exists jks : list (nat * key),
     length jks = m /\ NoDup (map fst jks) /\
-    (forall j k, In (j, k) jks -> nth_error (h_bks h) j = Some k) /\
+    (forall j k, In (j, k) jks -> nth_error (h_bks h) j = Some (BkKey k)) /\
     Forall2 (fun jk s => s = SBy (snd jk) (h_hash h)) jks (firstn m (h_sigs h)).
 
 Lemma accept_partial_slots st h r :
@@ -286,8 +288,8 @@ Lemma accept_partial_slots st h r :
   exists g hg cc peers,
     claimed st h = Some g /\ header_at st g = Some hg /\ cfg_of hg = Some cc /\
     lookup g (st_peers st) = Some peers /\
-    (forall k, In k (h_bks h) -> In k peers) /\
-    ((Z.of_N (cc_c cc) + 1) mod 4294967296 <= Z.of_nat (length (dedup (h_bks h))) mod 4294967296)%Z /\
+    (forall b, In b (h_bks h) -> In (bk_id b) peers) /\
+    ((Z.of_N (cc_c cc) + 1) mod 4294967296 <= Z.of_nat (length (dedup (map bk_id (h_bks h)))) mod 4294967296)%Z /\
     slots_signed h (Z.to_nat (hs_vbft_m (Z.of_nat (length peers)))).
 Proof.
   intros Hh H. destruct (verify_header_ok _ _ _ Hh H) as (g & hg & cc & peers & [H1 H2 H3 H4 [r' H5]]).
@@ -304,13 +306,14 @@ Lemma accept_partial_listed st h r :
     lookup g (st_peers st) = Some peers /\
     ((cc_c cc + 1 < two32)%N -> (Z.of_nat (length (h_bks h)) < 4294967296)%Z ->
      exists L, NoDup L /\ (N.to_nat (cc_c cc) + 1 <= length L)%nat /\
-       forall k, In k L -> In k (h_bks h) /\ In k peers).
+       forall k, In k L -> In k (map bk_id (h_bks h)) /\ In k peers).
 Proof.
   intros Hh H. destruct (accept_partial_slots _ _ _ Hh H) as (g & hg & cc & peers & H1 & H2 & H3 & H4 & H5 & H6 & _).
   exists g, hg, cc, peers. repeat (split; [assumption|]).
-  unfold two32. intros Hc Hl. exists (dedup (h_bks h)). split; [apply dedup_NoDup|].
-  pose proof (dedup_length_le (h_bks h)). split; [lia|].
+  unfold two32. intros Hc Hl. exists (dedup (map bk_id (h_bks h))). split; [apply dedup_NoDup|].
+  pose proof (dedup_length_le (map bk_id (h_bks h))). rewrite map_length in H0. split; [lia|].
   intros k Hk. apply (proj1 (dedup_In _ _)) in Hk. split; auto.
+  apply in_map_iff in Hk. destruct Hk as [b [<- Hb]]. auto.
 Qed.
 
 (** the generated threshold asks for at least one signature as soon as there is a peer *)
@@ -333,7 +336,7 @@ Proof.
   { apply hs_vbft_m_pos. destruct peers; [contradiction|simpl; lia]. }
   destruct jks as [|[j k] jks]; [simpl in Hl; lia|].
   exists k. split.
-  - apply H5. eapply nth_error_In. apply (Hin j k). left; auto.
+  - apply (H5 (BkKey k)). eapply nth_error_In. apply (Hin j k). left; auto.
   - destruct (Forall2_In_l _ _ _ (j, k) Hf) as [s [Hs1 Hs2]]; [left; auto|].
     simpl in Hs2; subst s. apply firstn_In in Hs1. exact Hs1.
 Qed.
@@ -400,7 +403,8 @@ Proof.
   unfold fc_stale in Hstale. rewrite H1 in Hstale. apply negb_false_iff in Hstale. apply opt_eqb_eq in Hstale.
   unfold fc_threshold in Hthr. rewrite H1, H4, H2, H3 in Hthr. unfold threshold_short in Hthr.
   apply Z.ltb_ge in Hthr.
-  unfold fc_dup in Hdup. apply negb_false_iff in Hdup. apply Nat.eqb_eq in Hdup. apply dedup_full_NoDup in Hdup.
+  unfold fc_dup in Hdup. apply negb_false_iff in Hdup. apply Nat.eqb_eq in Hdup.
+  rewrite <- (map_length bk_id) in Hdup. apply dedup_full_NoDup in Hdup.
   unfold fc_overwritten in How. rewrite H1, H4 in How. apply negb_false_iff in How.
   unfold entry_ok in How. simpl in How. rewrite H2, H3 in How.
   apply check_quorum_ok in H5. destruct H5 as (_ & Hmem & _ & Hv).
@@ -410,7 +414,7 @@ Proof.
   split; [rewrite map_length; lia|].
   intros k Hk. apply in_map_iff in Hk. destruct Hk as [[j k'] [Hs Hi]]. simpl in Hs; subst k'.
   split.
-  - assert (Hp : In k peers) by (apply Hmem; eapply nth_error_In; apply (Hin _ _ Hi)).
+  - assert (Hp : In k peers) by (apply (Hmem (BkKey k)); eapply nth_error_In; apply (Hin _ _ Hi)).
     eapply keyset_sub; eauto.
   - destruct (Forall2_In_l _ _ _ _ Hf Hi) as [s [Hs1 Hs2]]. simpl in Hs2; subst s.
     apply firstn_In in Hs1. exact Hs1.
@@ -583,7 +587,7 @@ Local Open Scope N_scope.
 Definition mk_cfg_header (height hash time last : N) (c : N) (peers : list key) : header :=
   {| h_height := height; h_prev := 0; h_time := time;
      h_info := Some {| bi_last := last; bi_newcfg := Some {| cc_c := c; cc_peers := peers |} |};
-     h_bks := []; h_sigs := []; h_hash := hash |}.
+     h_bks := map BkKey []; h_sigs := []; h_hash := hash |}.
 
 Definition peers7 : list key := [1;2;3;4;5;6;7].
 Definition peers14 : list key := [1;2;3;4;5;6;7;8;9;10;11;12;13;14].
@@ -597,7 +601,7 @@ Definition w1_store : store :=
 Definition w1_header : header :=
   {| h_height := 1; h_prev := 100; h_time := 1;
      h_info := Some {| bi_last := 0; bi_newcfg := None |};
-     h_bks := [1;2;3]; h_sigs := [SBy 1 200]; h_hash := 200 |}.
+     h_bks := map BkKey [1;2;3]; h_sigs := [SBy 1 200]; h_hash := 200 |}.
 
 (** W2: N=14, C=1 (m = 2 >= C+1); one member listed twice, its one signature sent twice *)
 Definition w2_genesis := mk_cfg_header 0 100 0 4294967295 1 peers14.
@@ -606,27 +610,27 @@ Definition w2_store : store :=
 Definition w2_header : header :=
   {| h_height := 1; h_prev := 100; h_time := 1;
      h_info := Some {| bi_last := 0; bi_newcfg := None |};
-     h_bks := [1;1;2]; h_sigs := [SBy 1 200; SBy 1 200]; h_hash := 200 |}.
+     h_bks := map BkKey [1;1;2]; h_sigs := [SBy 1 200; SBy 1 200]; h_hash := 200 |}.
 
 (** W3: the configuration changed at height 1 (new peer set 21..34); a header at height 2 names
     height 0 as its configuration and is signed by two members of the OLD set *)
 Definition w3_h1 : header :=
   {| h_height := 1; h_prev := 100; h_time := 1;
      h_info := Some {| bi_last := 0; bi_newcfg := Some {| cc_c := 1; cc_peers := peers14b |} |};
-     h_bks := [1;2]; h_sigs := [SBy 1 101; SBy 2 101]; h_hash := 101 |}.
+     h_bks := map BkKey [1;2]; h_sigs := [SBy 1 101; SBy 2 101]; h_hash := 101 |}.
 Definition w3_store : store :=
   {| st_headers := [w3_h1; w2_genesis]; st_index := [(0, 100); (1, 101)];
      st_peers := [(0, peers14); (1, peers14b)]; st_tip := 1 |}.
 Definition w3_header : header :=
   {| h_height := 2; h_prev := 101; h_time := 2;
      h_info := Some {| bi_last := 0; bi_newcfg := None |};
-     h_bks := [1;2]; h_sigs := [SBy 1 202; SBy 2 202]; h_hash := 202 |}.
+     h_bks := map BkKey [1;2]; h_sigs := [SBy 1 202; SBy 2 202]; h_hash := 202 |}.
 
 (** a good header for W2's store: two distinct members, two valid signatures *)
 Definition good_header : header :=
   {| h_height := 1; h_prev := 100; h_time := 1;
      h_info := Some {| bi_last := 0; bi_newcfg := None |};
-     h_bks := [3;9]; h_sigs := [SBy 9 200; SBy 3 200]; h_hash := 200 |}.
+     h_bks := map BkKey [3;9]; h_sigs := [SBy 9 200; SBy 3 200]; h_hash := 200 |}.
 
 Lemma w3_reachable : add_header w2_store w3_h1 = AddOk w3_store.
 Proof. vm_compute. reflexivity. Qed.
@@ -738,18 +742,18 @@ Definition peers14c : list key := [22;23;24;25;26;27;28;29;30;31;32;33;34;35].
 Definition w4_h1 : header :=
   {| h_height := 1; h_prev := 100; h_time := 1;
      h_info := Some {| bi_last := 0; bi_newcfg := Some {| cc_c := 1; cc_peers := peers14 |} |};
-     h_bks := peers7; h_sigs := map (fun k => SBy k 101) peers7; h_hash := 101 |}.
+     h_bks := map BkKey peers7; h_sigs := map (fun k => SBy k 101) peers7; h_hash := 101 |}.
 Definition w4_forged : header :=
   {| h_height := 1; h_prev := 100; h_time := 1;
      h_info := Some {| bi_last := 0; bi_newcfg := Some {| cc_c := 0; cc_peers := peers14c |} |};
-     h_bks := [1;2;3]; h_sigs := [SBy 1 111]; h_hash := 111 |}.
+     h_bks := map BkKey [1;2;3]; h_sigs := [SBy 1 111]; h_hash := 111 |}.
 Definition w4_store0 : store :=
   match add_header w1_store w4_h1 with AddOk st => st | _ => w1_store end.
 Definition w4_store : store := apply_verify w4_store0 (verify_header w4_store0 w4_forged).
 Definition w4_header : header :=
   {| h_height := 2; h_prev := 101; h_time := 2;
      h_info := Some {| bi_last := 1; bi_newcfg := None |};
-     h_bks := [22;23]; h_sigs := [SBy 22 202; SBy 23 202]; h_hash := 202 |}.
+     h_bks := map BkKey [22;23]; h_sigs := [SBy 22 202; SBy 23 202]; h_hash := 202 |}.
 
 Lemma w4_facts :
   store_wf w4_store0 /\ verify_header w4_store0 w4_forged = ROk (Some (1, peers14c)) /\
@@ -777,4 +781,35 @@ Lemma header_accept_refuted_overwritten :
 Proof.
   intros Hst. apply w4_not_quorum.
   apply (Hst w4_store w4_header None); [discriminate|vm_compute; reflexivity|vm_compute; reflexivity].
+Qed.
+
+(** forged key objects never fill a signature slot: a list made of forged objects only (whatever
+    ids they carry) is rejected as soon as one signature is asked for *)
+Lemma all_forged_rejected msg keys m sigs :
+  (0 < m)%Z -> (forall b, In b keys -> exists i, b = BkForged i) ->
+  verify_multi msg keys m sigs <> VmsOk.
+Proof.
+  intros Hm Hall Hok. apply verify_multi_ok in Hok. destruct Hok as (jks & Hl & _ & Hin & _).
+  destruct jks as [|[j k] r]; [simpl in Hl; lia|].
+  assert (Hn : nth_error keys j = Some (BkKey k)) by (apply Hin; left; auto).
+  apply nth_error_In in Hn. destruct (Hall _ Hn) as [i Hi]. discriminate Hi.
+Qed.
+
+(** ... and in a header: every signature slot of an accepted header is filled by a GENUINE key
+    object that is listed, is a member of the consulted peer set and has signed *)
+Lemma accept_slots_genuine st h r :
+  h_height h <> 0%N -> verify_header st h = ROk r ->
+  exists g peers, claimed st h = Some g /\ lookup g (st_peers st) = Some peers /\
+    exists ks : list key,
+      length ks = Z.to_nat (hs_vbft_m (Z.of_nat (length peers))) /\
+      forall k, In k ks -> In (BkKey k) (h_bks h) /\ In k peers /\ signed_by h k.
+Proof.
+  intros Hh H. destruct (accept_partial_slots _ _ _ Hh H) as (g & hg & cc & peers & H1 & _ & _ & H4 & H5 & _ & H7).
+  exists g, peers. repeat (split; [assumption|]).
+  destruct H7 as (jks & Hl & _ & Hin & Hf). exists (map snd jks). split; [rewrite map_length; auto|].
+  intros k Hk. apply in_map_iff in Hk. destruct Hk as [[j k'] [Hs Hi]]. simpl in Hs; subst k'.
+  assert (Hb : In (BkKey k) (h_bks h)) by (eapply nth_error_In; apply (Hin _ _ Hi)).
+  split; [auto|]. split; [apply (H5 (BkKey k)); auto|].
+  destruct (Forall2_In_l _ _ _ _ Hf Hi) as [s [Hs1 Hs2]]. simpl in Hs2; subst s.
+  apply firstn_In in Hs1. exact Hs1.
 Qed.
